@@ -1587,9 +1587,25 @@ func c10GoNestedOverrideRecurses(ctx *Ctx, r *Report) {
 	}
 	info := p.TypesInfo
 	n := 0
+	// the override branch: `if v, ok := extraDefaults[name]; ok {` or `v, ok := extraDefaults[name]; …; if ok {`
+	found := map[types.Object]bool{}
+	ast.Inspect(fd.Body, func(m ast.Node) bool {
+		if as, ok := m.(*ast.AssignStmt); ok && len(as.Lhs) == 2 && len(as.Rhs) == 1 && strings.Contains(exprString(as.Rhs[0]), "extraDefaults[") {
+			if id, ok := as.Lhs[1].(*ast.Ident); ok {
+				if o := objOf(info, id); o != nil {
+					found[o] = true
+				}
+			}
+		}
+		return true
+	})
 	ast.Inspect(fd.Body, func(m ast.Node) bool {
 		is, ok := m.(*ast.IfStmt)
-		if !ok || is.Init == nil || !strings.Contains(exprString(is.Init.(*ast.AssignStmt).Rhs[0]), "extraDefaults[") {
+		if !ok {
+			return true
+		}
+		id, ok := ast.Unparen(is.Cond).(*ast.Ident)
+		if !ok || !found[objOf(info, id)] {
 			return true
 		}
 		n++
